@@ -211,3 +211,56 @@ pub fn run(tier: Tier, seed: u64, tmp: &std::path::Path, replay: Option<&Value>)
     }
     rep
 }
+
+/// C01 / C07 beyond 2^30 bytes: a byte vector of 2^30 + 7 items (more than any single-write limit somebody might
+/// introduce) is serialized into memory; the returned count, the stream length and the content agree with the
+/// format, and both deserializers give the vector back. One case per run, about 3 GiB of memory for a moment.
+pub fn run_giant(seed: u64) -> Report {
+    let mut rep = Report::default();
+    let n: usize = (1 << 30) + 7 + (seed as usize % 5);
+    let mut v = vec![0u8; n];
+    let marks: Vec<usize> = vec![0, 1, 4095, 4096, (1 << 20) - 1, 1 << 20, (1 << 30) - 1, 1 << 30, n - 2, n - 1];
+    for (k, m) in marks.iter().enumerate() {
+        v[*m] = 0x31 + k as u8;
+    }
+    rep.evaluations += 1;
+    rep.class("vector-over-2^30-bytes");
+    rep.nontrivial.insert(crate::report::hash_case(&["giant"], &vmodel::val::Val::Unit, n as u64));
+    rep.sample(json!({"subject": "Vec<u8>", "items": n, "markers": marks.len()}));
+    let mut fail = |sig: &str, msg: String| {
+        rep.failures.push(Failure { property: "C01".into(), subject: "Vec<u8> (more than 2^30 items)".into(), subject_index: 0, val: None, env: json!({"giant": n}), message: msg, signature: sig.into() });
+    };
+    let header = FIXED_HEADER + 8 + core::any::type_name::<Vec<u8>>().len();
+    let expected = header + 8 + n;
+    let mut sink: Vec<u8> = Vec::with_capacity(expected + 64);
+    let r = guard(|| v.serialize(&mut sink));
+    match r {
+        Ok(Ok(count)) => {
+            if count != sink.len() || sink.len() != expected {
+                fail("giant-length", format!("serializing a Vec<u8> of {} items returned {}, the writer received {} bytes, the format prescribes {}", n, count, sink.len(), expected));
+                return rep;
+            }
+        }
+        other => {
+            fail("giant-serialize", format!("serializing a Vec<u8> of {} items: {:?}", n, other.map(|r| r.map_err(|e| format!("{:?}", e)))));
+            return rep;
+        }
+    }
+    if sink[header..header + 8] != n.to_ne_bytes() || marks.iter().enumerate().any(|(k, m)| sink[header + 8 + m] != 0x31 + k as u8) {
+        fail("giant-content", format!("the stream of a Vec<u8> of {} items does not hold the length and the marked bytes where the format puts them", n));
+        return rep;
+    }
+    let same = |got: &[u8]| got.len() == n && marks.iter().enumerate().all(|(k, m)| got[*m] == 0x31 + k as u8) && (0..4096).all(|j| { let p = j * (n / 4096) + 7; marks.contains(&p) || got[p] == 0 });
+    match guard(|| <Vec<u8>>::deserialize_eps(&sink)) {
+        Ok(Ok(s)) if same(s) => {}
+        other => {
+            fail("giant-eps", format!("ε-copy of the stream of a Vec<u8> of {} items: {}", n, match other { Ok(Ok(s)) => format!("a slice of {} items with other content", s.len()), Ok(Err(e)) => format!("{:?}", e), Err(p) => format!("panicked: {}", p) }));
+            return rep;
+        }
+    }
+    match guard(|| <Vec<u8>>::deserialize_full(&mut std::io::Cursor::new(&sink[..]))) {
+        Ok(Ok(s)) if same(&s) => {}
+        other => fail("giant-full", format!("full copy of the stream of a Vec<u8> of {} items: {}", n, match other { Ok(Ok(s)) => format!("a vector of {} items with other content", s.len()), Ok(Err(e)) => format!("{:?}", e), Err(p) => format!("panicked: {}", p) })),
+    }
+    rep
+}
